@@ -121,10 +121,12 @@ def setup_worker(i):
     subprocess.run(["rsync", "-a", "--delete", "--exclude", "/work", "--exclude", "/replays", "--exclude", "/harness/target*", "--exclude", "/.git", "--exclude", "/evidence", ROOT + "/", verif + "/"])
     os.makedirs(os.path.join(verif, "evidence"), exist_ok=True)
     ct = os.path.join(verif, "harness", "Cargo.toml")
-    open(ct, "w").write(open(ct).read().replace('"/repo/', '"' + repo + '/'))
+    txt = open(ct).read().replace('"/repo/', '"' + repo + '/')
+    open(ct, "w").write(txt)
     for f in os.listdir(os.path.join(verif, "checks")):
         p = os.path.join(verif, "checks", f)
-        open(p, "w").write(open(p).read().replace("/verif/", verif + "/").replace("cd /repo", "cd " + repo))
+        txt = open(p).read().replace("/verif/", verif + "/").replace("cd /repo", "cd " + repo)
+        open(p, "w").write(txt)
     return repo, verif
 
 
@@ -176,10 +178,14 @@ def worker(i, queue):
                 except Exception:
                     pass
             res["checks"][p] = {"rc": rc, "violations": len(viol), "nfif": any("no-failing-input-found" in v for v in viol), "summary": last, "first": msg, "wall_s": t}
+            if rc != 0 and not viol:
+                res["status"] = "check-error"
+                break
             if rc != 0:
                 caught = True
                 break
-        res["status"] = "caught" if caught else "survived"
+        if res.get("status") != "check-error":
+            res["status"] = "caught" if caught else "survived"
         record(res)
         print(mid, res["status"], rel, line_no + 1, "|", res["old"][:60], "=>", res["new"][:60], flush=True)
 
